@@ -24,177 +24,202 @@ namespace Ioflo.Http
 /-- **Request with a body of announced length** (`Content-Length: n`, or no body at all): for every
 split of `head ++ data ++ rest` into receives the request line tokens, the headers, the body are the
 content, the message is complete without error, and `rest` is left unconsumed. -/
-theorem C29_request_fixed_length {max : Nat} (hmax : 0 < max) {m0 sl m u v : Bytes} {ls : List Bytes}
-    {H : Hdrs} (w : ReqHead max sl ls m u v H) (hch : isChunked H = false)
+theorem C29_request_fixed_length {c0 : Core} (hfr : Fresh .req c0) (hmax : 0 < c0.max) {sl m u v : Bytes} {ls : List Bytes}
+    {H : Hdrs} (w : ReqHead c0.max sl ls m u v H) (hch : isChunked H = false)
     (data rest : Bytes) (hn : reqLen H = some data.length) (ps : List Bytes)
     (hps : ps.flatten = headBytes sl ls ++ (data ++ rest)) :
-    (feedAll (init .req m0 max) ps).msg = rest ∧
-    (feedAll (init .req m0 max) ps).core.gen = .none ∧
-    (feedAll (init .req m0 max) ps).core.ended = some true ∧
-    (feedAll (init .req m0 max) ps).core.errored = false ∧
-    (feedAll (init .req m0 max) ps).core.escaped = none ∧
-    (feedAll (init .req m0 max) ps).core.method = m ∧
-    (feedAll (init .req m0 max) ps).core.url = strip u ∧
-    (feedAll (init .req m0 max) ps).core.version = reqVersion v ∧
-    (feedAll (init .req m0 max) ps).core.headers = some H ∧
-    (feedAll (init .req m0 max) ps).core.body = data ∧
-    (feedAll (init .req m0 max) ps).core.trails = none := by
-  rw [request_length_any_split hmax w hch data rest hn ps hps]
-  simp [doneCore, reqHeadCore, reqAtHeadEnd, reqAfterStart, cStarted, cWait, core0, init]
+    (feedAll { core := c0, msg := [] } ps).msg = rest ∧
+    (feedAll { core := c0, msg := [] } ps).core.gen = .none ∧
+    (feedAll { core := c0, msg := [] } ps).core.ended = some true ∧
+    (feedAll { core := c0, msg := [] } ps).core.errored = false ∧
+    (feedAll { core := c0, msg := [] } ps).core.escaped = none ∧
+    (feedAll { core := c0, msg := [] } ps).core.method = m ∧
+    (feedAll { core := c0, msg := [] } ps).core.url = strip u ∧
+    (feedAll { core := c0, msg := [] } ps).core.version = reqVersion v ∧
+    (feedAll { core := c0, msg := [] } ps).core.headers = some H ∧
+    (feedAll { core := c0, msg := [] } ps).core.body = data ∧
+    (feedAll { core := c0, msg := [] } ps).core.trails = none := by
+  rw [request_length_any_split hfr hmax w hch data rest hn ps hps]
+  simp [doneCore, reqHeadCore, reqAtHeadEnd, reqAfterStart, cStarted, cWait, resetOf, hfr.resetPT, hfr.escaped]
 
 /-- **Response with a body of announced length** (`Content-Length`, or 204 / 304 / answer to
 HEAD), preceded by any number `pre` of interim `100 Continue` responses, which are skipped. -/
-theorem C29_response_fixed_length {max : Nat} (hmax : 0 < max) {m0 sl reason : Bytes} {ver : Nat × Nat}
-    {status : Nat} {ls : List Bytes} {H : Hdrs} (pre : List Interim) (hpre : ∀ i ∈ pre, i.ok max)
-    (w : RspHead max sl ls ver status reason H)
+theorem C29_response_fixed_length {c0 : Core} (hfr : Fresh .rsp c0) (hmax : 0 < c0.max) {sl reason : Bytes} {ver : Nat × Nat}
+    {status : Nat} {ls : List Bytes} {H : Hdrs} (pre : List Interim) (hpre : ∀ i ∈ pre, i.ok c0.max)
+    (w : RspHead c0.max sl ls ver status reason H)
     (hch : isChunked H = false) (data rest : Bytes)
-    (hn : rspLen (rspAtHeadEnd m0 max ver status reason H) H = some data.length) (ps : List Bytes)
+    (hn : rspLen (rspAtHeadEnd c0 ver status reason H) H = some data.length) (ps : List Bytes)
     (hps : ps.flatten = interimBytes pre ++ (headBytes sl ls ++ (data ++ rest))) :
-    (feedAll (init .rsp m0 max) ps).msg = rest ∧
-    (feedAll (init .rsp m0 max) ps).core.gen = .none ∧
-    (feedAll (init .rsp m0 max) ps).core.ended = some true ∧
-    (feedAll (init .rsp m0 max) ps).core.errored = false ∧
-    (feedAll (init .rsp m0 max) ps).core.escaped = none ∧
-    (feedAll (init .rsp m0 max) ps).core.version = some ver ∧
-    (feedAll (init .rsp m0 max) ps).core.status = some status ∧
-    (feedAll (init .rsp m0 max) ps).core.reason = some (strip reason) ∧
-    (feedAll (init .rsp m0 max) ps).core.headers = some H ∧
-    (feedAll (init .rsp m0 max) ps).core.body = data ∧
-    (feedAll (init .rsp m0 max) ps).core.trails = none := by
-  rw [response_length_any_split hmax pre hpre w hch data rest hn ps hps]
-  simp [doneCore, rspHeadCore', rspHeadCore, rspAtHeadEnd, rspAfterStart, cStarted, cWait, core0, init]
+    (feedAll { core := c0, msg := [] } ps).msg = rest ∧
+    (feedAll { core := c0, msg := [] } ps).core.gen = .none ∧
+    (feedAll { core := c0, msg := [] } ps).core.ended = some true ∧
+    (feedAll { core := c0, msg := [] } ps).core.errored = false ∧
+    (feedAll { core := c0, msg := [] } ps).core.escaped = none ∧
+    (feedAll { core := c0, msg := [] } ps).core.version = some ver ∧
+    (feedAll { core := c0, msg := [] } ps).core.status = some status ∧
+    (feedAll { core := c0, msg := [] } ps).core.reason = some (strip reason) ∧
+    (feedAll { core := c0, msg := [] } ps).core.headers = some H ∧
+    (feedAll { core := c0, msg := [] } ps).core.body = data ∧
+    (feedAll { core := c0, msg := [] } ps).core.trails = none := by
+  rw [response_length_any_split hfr hmax pre hpre w hch data rest hn ps hps]
+  simp [doneCore, rspHeadCore', rspHeadCore, rspAtHeadEnd, rspAfterStart, cStarted, cWait, resetOf, hfr.resetPT, hfr.escaped]
 
 /-! ## chunked, with extensions and trailers -/
 
 /-- **Chunked request**: any number of chunks (size lines with extensions), a last chunk, trailer
 lines.  Body = the chunk data concatenated, `parms` = the extensions merged in order, `trails` = the
 trailer dictionary (`None` when there is none), `rest` unconsumed — for every split. -/
-theorem C29_request_chunked {max : Nat} (hmax : 0 < max) {m0 sl m u v : Bytes} {ls : List Bytes}
-    {H : Hdrs} (w : ReqHead max sl ls m u v H) (hch : isChunked H = true)
-    (ks : List Chunk) (hks : ∀ k ∈ ks, k.wf max)
-    (ll : Bytes) (pm0 : Parms) (hll : cleanLine ll) (hlls : ll.length < max) (hl0 : chunkLine ll = .ok (0, pm0))
-    (ts : List Bytes) (Tr : Hdrs) (hts : ∀ l ∈ ts, goodLine max l) (hTr : foldHdr [] ts = some Tr)
+theorem C29_request_chunked {c0 : Core} (hfr : Fresh .req c0) (hmax : 0 < c0.max) {sl m u v : Bytes} {ls : List Bytes}
+    {H : Hdrs} (w : ReqHead c0.max sl ls m u v H) (hch : isChunked H = true)
+    (ks : List Chunk) (hks : ∀ k ∈ ks, k.wf c0.max)
+    (ll : Bytes) (pm0 : Parms) (hll : cleanLine ll) (hlls : ll.length < c0.max) (hl0 : chunkLine ll = .ok (0, pm0))
+    (ts : List Bytes) (Tr : Hdrs) (hts : ∀ l ∈ ts, goodLine c0.max l) (hTr : foldHdr [] ts = some Tr)
     (rest : Bytes) (ps : List Bytes)
     (hps : ps.flatten = headBytes sl ls ++ (chunksBytes ks ++ (lastBytes ll ts ++ rest))) :
-    (feedAll (init .req m0 max) ps).msg = rest ∧
-    (feedAll (init .req m0 max) ps).core.gen = .none ∧
-    (feedAll (init .req m0 max) ps).core.ended = some true ∧
-    (feedAll (init .req m0 max) ps).core.errored = false ∧
-    (feedAll (init .req m0 max) ps).core.escaped = none ∧
-    (feedAll (init .req m0 max) ps).core.method = m ∧
-    (feedAll (init .req m0 max) ps).core.url = strip u ∧
-    (feedAll (init .req m0 max) ps).core.version = reqVersion v ∧
-    (feedAll (init .req m0 max) ps).core.headers = some H ∧
-    (feedAll (init .req m0 max) ps).core.body = chunksData ks ∧
-    (feedAll (init .req m0 max) ps).core.parms = updParms (chunksParms (some []) ks) pm0 ∧
-    (feedAll (init .req m0 max) ps).core.trails = (if Tr = [] then none else some Tr) := by
-  rw [request_chunked_any_split hmax w hch ks hks ll pm0 hll hlls hl0 ts Tr hts hTr rest ps hps]
-  simp [chunkedDone, doneCore, reqHeadCore, reqAtHeadEnd, reqAfterStart, cStarted, cWait, core0, init, trailsOf]
+    (feedAll { core := c0, msg := [] } ps).msg = rest ∧
+    (feedAll { core := c0, msg := [] } ps).core.gen = .none ∧
+    (feedAll { core := c0, msg := [] } ps).core.ended = some true ∧
+    (feedAll { core := c0, msg := [] } ps).core.errored = false ∧
+    (feedAll { core := c0, msg := [] } ps).core.escaped = none ∧
+    (feedAll { core := c0, msg := [] } ps).core.method = m ∧
+    (feedAll { core := c0, msg := [] } ps).core.url = strip u ∧
+    (feedAll { core := c0, msg := [] } ps).core.version = reqVersion v ∧
+    (feedAll { core := c0, msg := [] } ps).core.headers = some H ∧
+    (feedAll { core := c0, msg := [] } ps).core.body = chunksData ks ∧
+    (feedAll { core := c0, msg := [] } ps).core.parms = updParms (chunksParms (some []) ks) pm0 ∧
+    (feedAll { core := c0, msg := [] } ps).core.trails = (if Tr = [] then none else some Tr) := by
+  rw [request_chunked_any_split hfr hmax w hch ks hks ll pm0 hll hlls hl0 ts Tr hts hTr rest ps hps]
+  simp [chunkedDone, doneCore, reqHeadCore, reqAtHeadEnd, reqAfterStart, cStarted, cWait, trailsOf, resetOf, hfr.resetPT, hfr.escaped]
 
 /-- **Chunked response**. -/
-theorem C29_response_chunked {max : Nat} (hmax : 0 < max) {m0 sl reason : Bytes} {ver : Nat × Nat}
-    {status : Nat} {ls : List Bytes} {H : Hdrs} (pre : List Interim) (hpre : ∀ i ∈ pre, i.ok max)
-    (w : RspHead max sl ls ver status reason H)
+theorem C29_response_chunked {c0 : Core} (hfr : Fresh .rsp c0) (hmax : 0 < c0.max) {sl reason : Bytes} {ver : Nat × Nat}
+    {status : Nat} {ls : List Bytes} {H : Hdrs} (pre : List Interim) (hpre : ∀ i ∈ pre, i.ok c0.max)
+    (w : RspHead c0.max sl ls ver status reason H)
     (hch : isChunked H = true)
-    (ks : List Chunk) (hks : ∀ k ∈ ks, k.wf max)
-    (ll : Bytes) (pm0 : Parms) (hll : cleanLine ll) (hlls : ll.length < max) (hl0 : chunkLine ll = .ok (0, pm0))
-    (ts : List Bytes) (Tr : Hdrs) (hts : ∀ l ∈ ts, goodLine max l) (hTr : foldHdr [] ts = some Tr)
+    (ks : List Chunk) (hks : ∀ k ∈ ks, k.wf c0.max)
+    (ll : Bytes) (pm0 : Parms) (hll : cleanLine ll) (hlls : ll.length < c0.max) (hl0 : chunkLine ll = .ok (0, pm0))
+    (ts : List Bytes) (Tr : Hdrs) (hts : ∀ l ∈ ts, goodLine c0.max l) (hTr : foldHdr [] ts = some Tr)
     (rest : Bytes) (ps : List Bytes)
     (hps : ps.flatten = interimBytes pre ++ (headBytes sl ls ++ (chunksBytes ks ++ (lastBytes ll ts ++ rest)))) :
-    (feedAll (init .rsp m0 max) ps).msg = rest ∧
-    (feedAll (init .rsp m0 max) ps).core.gen = .none ∧
-    (feedAll (init .rsp m0 max) ps).core.ended = some true ∧
-    (feedAll (init .rsp m0 max) ps).core.errored = false ∧
-    (feedAll (init .rsp m0 max) ps).core.escaped = none ∧
-    (feedAll (init .rsp m0 max) ps).core.version = some ver ∧
-    (feedAll (init .rsp m0 max) ps).core.status = some status ∧
-    (feedAll (init .rsp m0 max) ps).core.reason = some (strip reason) ∧
-    (feedAll (init .rsp m0 max) ps).core.headers = some H ∧
-    (feedAll (init .rsp m0 max) ps).core.body = chunksData ks ∧
-    (feedAll (init .rsp m0 max) ps).core.parms = updParms (chunksParms (some []) ks) pm0 ∧
-    (feedAll (init .rsp m0 max) ps).core.trails = (if Tr = [] then none else some Tr) := by
-  rw [response_chunked_any_split hmax pre hpre w hch ks hks ll pm0 hll hlls hl0 ts Tr hts hTr rest ps hps]
-  simp [chunkedDone, doneCore, rspHeadCore', rspHeadCore, rspAtHeadEnd, rspAfterStart, cStarted, cWait, core0, init, trailsOf]
+    (feedAll { core := c0, msg := [] } ps).msg = rest ∧
+    (feedAll { core := c0, msg := [] } ps).core.gen = .none ∧
+    (feedAll { core := c0, msg := [] } ps).core.ended = some true ∧
+    (feedAll { core := c0, msg := [] } ps).core.errored = false ∧
+    (feedAll { core := c0, msg := [] } ps).core.escaped = none ∧
+    (feedAll { core := c0, msg := [] } ps).core.version = some ver ∧
+    (feedAll { core := c0, msg := [] } ps).core.status = some status ∧
+    (feedAll { core := c0, msg := [] } ps).core.reason = some (strip reason) ∧
+    (feedAll { core := c0, msg := [] } ps).core.headers = some H ∧
+    (feedAll { core := c0, msg := [] } ps).core.body = chunksData ks ∧
+    (feedAll { core := c0, msg := [] } ps).core.parms = updParms (chunksParms (some []) ks) pm0 ∧
+    (feedAll { core := c0, msg := [] } ps).core.trails = (if Tr = [] then none else some Tr) := by
+  rw [response_chunked_any_split hfr hmax pre hpre w hch ks hks ll pm0 hll hlls hl0 ts Tr hts hTr rest ps hps]
+  simp [chunkedDone, doneCore, rspHeadCore', rspHeadCore, rspAtHeadEnd, rspAfterStart, cStarted, cWait, trailsOf, resetOf, hfr.resetPT, hfr.escaped]
 
 /-! ## read until close -/
 
 /-- **Response without length, not chunked**: every byte after the head is body, for every split;
 `close()` then `parse()` completes the message with that body. -/
-theorem C29_response_until_close {max : Nat} (hmax : 0 < max) {m0 sl reason : Bytes} {ver : Nat × Nat}
-    {status : Nat} {ls : List Bytes} {H : Hdrs} (pre : List Interim) (hpre : ∀ i ∈ pre, i.ok max)
-    (w : RspHead max sl ls ver status reason H)
+theorem C29_response_until_close {c0 : Core} (hfr : Fresh .rsp c0) (hmax : 0 < c0.max) {sl reason : Bytes} {ver : Nat × Nat}
+    {status : Nat} {ls : List Bytes} {H : Hdrs} (pre : List Interim) (hpre : ∀ i ∈ pre, i.ok c0.max)
+    (w : RspHead c0.max sl ls ver status reason H)
     (hch : isChunked H = false)
-    (hn : rspLen (rspAtHeadEnd m0 max ver status reason H) H = none) (body : Bytes) (ps : List Bytes)
+    (hn : rspLen (rspAtHeadEnd c0 ver status reason H) H = none) (body : Bytes) (ps : List Bytes)
     (hps : ps.flatten = interimBytes pre ++ (headBytes sl ls ++ body)) :
-    (feedAll (init .rsp m0 max) ps).msg = [] ∧
-    (feedAll (init .rsp m0 max) ps).core.body = body ∧
-    (feedAll (init .rsp m0 max) ps).core.headers = some H ∧
-    (feedAll (init .rsp m0 max) ps).core.status = some status ∧
-    (parse (close (feedAll (init .rsp m0 max) ps))).core.gen = .none ∧
-    (parse (close (feedAll (init .rsp m0 max) ps))).core.ended = some true ∧
-    (parse (close (feedAll (init .rsp m0 max) ps))).core.errored = false ∧
-    (parse (close (feedAll (init .rsp m0 max) ps))).core.escaped = none ∧
-    (parse (close (feedAll (init .rsp m0 max) ps))).core.body = body ∧
-    (parse (close (feedAll (init .rsp m0 max) ps))).core.length = some body.length := by
-  obtain ⟨h1, h2⟩ := response_close_any_split hmax pre hpre w hch hn body ps hps
+    (feedAll { core := c0, msg := [] } ps).msg = [] ∧
+    (feedAll { core := c0, msg := [] } ps).core.body = body ∧
+    (feedAll { core := c0, msg := [] } ps).core.headers = some H ∧
+    (feedAll { core := c0, msg := [] } ps).core.status = some status ∧
+    (parse (close (feedAll { core := c0, msg := [] } ps))).core.gen = .none ∧
+    (parse (close (feedAll { core := c0, msg := [] } ps))).core.ended = some true ∧
+    (parse (close (feedAll { core := c0, msg := [] } ps))).core.errored = false ∧
+    (parse (close (feedAll { core := c0, msg := [] } ps))).core.escaped = none ∧
+    (parse (close (feedAll { core := c0, msg := [] } ps))).core.body = body ∧
+    (parse (close (feedAll { core := c0, msg := [] } ps))).core.length = some body.length := by
+  obtain ⟨h1, h2⟩ := response_close_any_split hfr hmax pre hpre w hch hn body ps hps
   rw [h2, h1]
-  simp [doneCore, rspHeadCore', rspHeadCore, rspAtHeadEnd, rspAfterStart, cStarted, cWait, core0, init]
+  simp [doneCore, rspHeadCore', rspHeadCore, rspAtHeadEnd, rspAfterStart, cStarted, cWait, resetOf, hfr.resetPT, hfr.escaped]
 
 /-! ## any two splits -/
 
 /-- the streams covered above: a well-formed message of one of the four self-delimiting shapes
 followed by arbitrary bytes -/
-inductive WfStream (max : Nat) : Kind → Bytes → Bytes → Prop
-  | reqLength {m0 sl m u v ls H} (w : ReqHead max sl ls m u v H) (hch : isChunked H = false)
+inductive WfStream (c0 : Core) : Kind → Bytes → Prop
+  | reqLength {sl m u v ls H} (w : ReqHead c0.max sl ls m u v H) (hch : isChunked H = false)
       (data rest : Bytes) (hn : reqLen H = some data.length) :
-      WfStream max .req m0 (headBytes sl ls ++ (data ++ rest))
-  | reqChunked {m0 sl m u v ls H} (w : ReqHead max sl ls m u v H) (hch : isChunked H = true)
-      (ks : List Chunk) (hks : ∀ k ∈ ks, k.wf max)
-      (ll : Bytes) (pm0 : Parms) (hll : cleanLine ll) (hlls : ll.length < max) (hl0 : chunkLine ll = .ok (0, pm0))
-      (ts : List Bytes) (Tr : Hdrs) (hts : ∀ l ∈ ts, goodLine max l) (hTr : foldHdr [] ts = some Tr)
+      WfStream c0 .req (headBytes sl ls ++ (data ++ rest))
+  | reqChunked {sl m u v ls H} (w : ReqHead c0.max sl ls m u v H) (hch : isChunked H = true)
+      (ks : List Chunk) (hks : ∀ k ∈ ks, k.wf c0.max)
+      (ll : Bytes) (pm0 : Parms) (hll : cleanLine ll) (hlls : ll.length < c0.max) (hl0 : chunkLine ll = .ok (0, pm0))
+      (ts : List Bytes) (Tr : Hdrs) (hts : ∀ l ∈ ts, goodLine c0.max l) (hTr : foldHdr [] ts = some Tr)
       (rest : Bytes) :
-      WfStream max .req m0 (headBytes sl ls ++ (chunksBytes ks ++ (lastBytes ll ts ++ rest)))
-  | rspLength {m0 sl reason ver status ls H} (pre : List Interim) (hpre : ∀ i ∈ pre, i.ok max)
-      (w : RspHead max sl ls ver status reason H)
+      WfStream c0 .req (headBytes sl ls ++ (chunksBytes ks ++ (lastBytes ll ts ++ rest)))
+  | rspLength {sl reason ver status ls H} (pre : List Interim) (hpre : ∀ i ∈ pre, i.ok c0.max)
+      (w : RspHead c0.max sl ls ver status reason H)
       (hch : isChunked H = false) (data rest : Bytes)
-      (hn : rspLen (rspAtHeadEnd m0 max ver status reason H) H = some data.length) :
-      WfStream max .rsp m0 (interimBytes pre ++ (headBytes sl ls ++ (data ++ rest)))
-  | rspChunked {m0 sl reason ver status ls H} (pre : List Interim) (hpre : ∀ i ∈ pre, i.ok max)
-      (w : RspHead max sl ls ver status reason H)
+      (hn : rspLen (rspAtHeadEnd c0 ver status reason H) H = some data.length) :
+      WfStream c0 .rsp (interimBytes pre ++ (headBytes sl ls ++ (data ++ rest)))
+  | rspChunked {sl reason ver status ls H} (pre : List Interim) (hpre : ∀ i ∈ pre, i.ok c0.max)
+      (w : RspHead c0.max sl ls ver status reason H)
       (hch : isChunked H = true)
-      (ks : List Chunk) (hks : ∀ k ∈ ks, k.wf max)
-      (ll : Bytes) (pm0 : Parms) (hll : cleanLine ll) (hlls : ll.length < max) (hl0 : chunkLine ll = .ok (0, pm0))
-      (ts : List Bytes) (Tr : Hdrs) (hts : ∀ l ∈ ts, goodLine max l) (hTr : foldHdr [] ts = some Tr)
+      (ks : List Chunk) (hks : ∀ k ∈ ks, k.wf c0.max)
+      (ll : Bytes) (pm0 : Parms) (hll : cleanLine ll) (hlls : ll.length < c0.max) (hl0 : chunkLine ll = .ok (0, pm0))
+      (ts : List Bytes) (Tr : Hdrs) (hts : ∀ l ∈ ts, goodLine c0.max l) (hTr : foldHdr [] ts = some Tr)
       (rest : Bytes) :
-      WfStream max .rsp m0 (interimBytes pre ++ (headBytes sl ls ++ (chunksBytes ks ++ (lastBytes ll ts ++ rest))))
-  | rspClose {m0 sl reason ver status ls H} (pre : List Interim) (hpre : ∀ i ∈ pre, i.ok max)
-      (w : RspHead max sl ls ver status reason H)
+      WfStream c0 .rsp (interimBytes pre ++ (headBytes sl ls ++ (chunksBytes ks ++ (lastBytes ll ts ++ rest))))
+  | rspClose {sl reason ver status ls H} (pre : List Interim) (hpre : ∀ i ∈ pre, i.ok c0.max)
+      (w : RspHead c0.max sl ls ver status reason H)
       (hch : isChunked H = false)
-      (hn : rspLen (rspAtHeadEnd m0 max ver status reason H) H = none) (body : Bytes) :
-      WfStream max .rsp m0 (interimBytes pre ++ (headBytes sl ls ++ body))
+      (hn : rspLen (rspAtHeadEnd c0 ver status reason H) H = none) (body : Bytes) :
+      WfStream c0 .rsp (interimBytes pre ++ (headBytes sl ls ++ body))
 
 /-- **However the bytes arrive**: two ways of cutting the same well-formed stream into receives
 leave the parser in the same state — every field and the unconsumed buffer. -/
-theorem C29_split_independent {max : Nat} (hmax : 0 < max) {kind : Kind} {m0 stream : Bytes}
-    (h : WfStream max kind m0 stream) (ps ps' : List Bytes)
+theorem C29_split_independent {c0 : Core} {kind : Kind} (hfr : Fresh kind c0) (hmax : 0 < c0.max) {stream : Bytes}
+    (h : WfStream c0 kind stream) (ps ps' : List Bytes)
     (hps : ps.flatten = stream) (hps' : ps'.flatten = stream) :
-    feedAll (init kind m0 max) ps = feedAll (init kind m0 max) ps' := by
+    feedAll { core := c0, msg := [] } ps = feedAll { core := c0, msg := [] } ps' := by
   cases h with
   | reqLength w hch data rest hn =>
-    rw [request_length_any_split hmax w hch data rest hn ps hps,
-      request_length_any_split hmax w hch data rest hn ps' hps']
+    rw [request_length_any_split hfr hmax w hch data rest hn ps hps,
+      request_length_any_split hfr hmax w hch data rest hn ps' hps']
   | reqChunked w hch ks hks ll pm0 hll hlls hl0 ts Tr hts hTr rest =>
-    rw [request_chunked_any_split hmax w hch ks hks ll pm0 hll hlls hl0 ts Tr hts hTr rest ps hps,
-      request_chunked_any_split hmax w hch ks hks ll pm0 hll hlls hl0 ts Tr hts hTr rest ps' hps']
+    rw [request_chunked_any_split hfr hmax w hch ks hks ll pm0 hll hlls hl0 ts Tr hts hTr rest ps hps,
+      request_chunked_any_split hfr hmax w hch ks hks ll pm0 hll hlls hl0 ts Tr hts hTr rest ps' hps']
   | rspLength pre hpre w hch data rest hn =>
-    rw [response_length_any_split hmax pre hpre w hch data rest hn ps hps,
-      response_length_any_split hmax pre hpre w hch data rest hn ps' hps']
+    rw [response_length_any_split hfr hmax pre hpre w hch data rest hn ps hps,
+      response_length_any_split hfr hmax pre hpre w hch data rest hn ps' hps']
   | rspChunked pre hpre w hch ks hks ll pm0 hll hlls hl0 ts Tr hts hTr rest =>
-    rw [response_chunked_any_split hmax pre hpre w hch ks hks ll pm0 hll hlls hl0 ts Tr hts hTr rest ps hps,
-      response_chunked_any_split hmax pre hpre w hch ks hks ll pm0 hll hlls hl0 ts Tr hts hTr rest ps' hps']
+    rw [response_chunked_any_split hfr hmax pre hpre w hch ks hks ll pm0 hll hlls hl0 ts Tr hts hTr rest ps hps,
+      response_chunked_any_split hfr hmax pre hpre w hch ks hks ll pm0 hll hlls hl0 ts Tr hts hTr rest ps' hps']
   | rspClose pre hpre w hch hn body =>
-    rw [(response_close_any_split hmax pre hpre w hch hn body ps hps).1,
-      (response_close_any_split hmax pre hpre w hch hn body ps' hps').1]
+    rw [(response_close_any_split hfr hmax pre hpre w hch hn body ps hps).1,
+      (response_close_any_split hfr hmax pre hpre w hch hn body ps' hps').1]
+
+/-! ## the next message on the same connection -/
+
+/-- **A reused parser is a fresh parser**: after a message is complete, `makeParser()` (what the
+Valet does on a persistent connection) puts the parser into a state to which every theorem above
+applies (`Fresh`) — the fields of the previous message do not leak into the next one (in particular
+`parms` and `trails` are reset, fixes/D29c) — and parsing what was left in the buffer is the first
+receive of the next message. -/
+theorem C29_reused_parser_is_fresh (s : St) (h1 : s.core.started = false) (h2 : s.core.resetPT = true)
+    (h3 : s.core.escaped = none) (ps : List Bytes) :
+    Fresh s.core.kind (makeParser s).core ∧
+    feedAll (parse (makeParser s)) ps = feedAll { core := (makeParser s).core, msg := [] } (s.msg :: ps) :=
+  ⟨⟨rfl, rfl, h1, h2, h3⟩, rfl⟩
+
+/-- … hence the next message is parsed the same however its bytes arrive, including those that
+arrived together with the end of the previous message -/
+theorem C29_next_message_split_independent (s : St) (h1 : s.core.started = false) (h2 : s.core.resetPT = true)
+    (h3 : s.core.escaped = none) (hmax : 0 < s.core.max) {stream : Bytes}
+    (h : WfStream (makeParser s).core s.core.kind stream) (ps ps' : List Bytes)
+    (hps : s.msg ++ ps.flatten = stream) (hps' : s.msg ++ ps'.flatten = stream) :
+    feedAll (parse (makeParser s)) ps = feedAll (parse (makeParser s)) ps' := by
+  obtain ⟨hf, e⟩ := C29_reused_parser_is_fresh s h1 h2 h3 ps
+  obtain ⟨_, e'⟩ := C29_reused_parser_is_fresh s h1 h2 h3 ps'
+  rw [e, e']
+  exact C29_split_independent hf hmax h _ _ (by simpa using hps) (by simpa using hps')
 
 /-! ## what the line functions read in canonically written lines -/
 
@@ -261,7 +286,8 @@ example :
     (feedAll (init .req [71, 69, 84] 65536) ps).core.parms = some [([102, 111, 111], some [98, 97, 114])] ∧
     (feedAll (init .req [71, 69, 84] 65536) ps).core.trails = some [([120, 45, 116], [49])] := by
   intro ps
-  have h := C29_request_chunked (max := 65536) (by decide) (m0 := [71, 69, 84]) exReqHead (by rfl)
+  have h := C29_request_chunked (c0 := (init .req [71, 69, 84] 65536).core) (fresh_init _ _ _) (by decide)
+    exReqHead (by rfl)
     [⟨[51, 59, 102, 111, 111, 61, 98, 97, 114], [([102, 111, 111], some [98, 97, 114])], [97, 98, 99]⟩]
     (by intro k hk; simp only [List.mem_cons, List.not_mem_nil, or_false] at hk; subst hk; exact exChunk)
     [48] [] (by decide) (by decide) (by rfl)
@@ -304,7 +330,7 @@ example :
     (feedAll (init .rsp [71, 69, 84] 65536) ps).core.body = [122] ∧
     (feedAll (init .rsp [71, 69, 84] 65536) ps).core.status = some 200 := by
   intro ps
-  have h := C29_response_fixed_length (max := 65536) (by decide) (m0 := [71, 69, 84])
+  have h := C29_response_fixed_length (c0 := (init .rsp [71, 69, 84] 65536).core) (fresh_init _ _ _) (by decide)
     [⟨[72, 84, 84, 80, 47, 49, 46, 49, 32, 49, 48, 48, 32, 67, 111, 110, 116, 105, 110, 117, 101], []⟩]
     (by intro i hi; simp only [List.mem_cons, List.not_mem_nil, or_false] at hi; subst hi; exact exInterim)
     exRspHead (by rfl) [122] [88] (by rfl) ps (by decide)
